@@ -119,7 +119,7 @@ claim("C13",
       "joined flag; the writer dispatches ordered; worker creation is counted under the pool mutex only when no idle thread exists and the maximum is not reached; "
       "each delivered result is read-and-cleared once and passed to the callback once; workers and the result thread leave only on their termination conditions; "
       "the result queue's tail pointer is advanced on append and re-anchored when the queue empties. Deadlock freedom under all schedules and byte identity of "
-      "outputs are model-checking questions and are not decided. Also decides (R9) that no code reachable from a pool work function or result callback hands a non-NULL pool to a writer or sorter it creates (a job waiting for a slot of the pool it occupies). Re-runs C14 (C13.D.*): the same result under every interleaving presupposes that jobs share no unsynchronised state.",
+      "outputs are model-checking questions and are not decided. Also decides (R9) that no code reachable from a pool work function or result callback hands a non-NULL pool to a writer or sorter it creates (a job waiting for a slot of the pool it occupies), and (R10), by value on the paths of threadpool_dispatch and thread_worker, that the thread field the worker reads to choose between its two ways of reporting completion holds for every job what the dispatch of that job asked for: the handler's queue for an unordered dispatch, NULL for an ordered one - stored by the dispatch, or left alone only when idle threads provably have it NULL (created zeroed, cleared by the worker after every job). Re-runs C14 (C13.D.*): the same result under every interleaving presupposes that jobs share no unsynchronised state.",
       "Trusts T-cv/T-lock (which stores are non-enabling and why), pthread semantics, lock objects told apart by base expression inside one function, loop bound 1.")
 
 claim("C14",
